@@ -1,13 +1,18 @@
 // Package c35 decides C35 "langlint formatting never changes the message
-// table" with the real tools as the oracle: $VERIF_BIN/lang compiles a message
-// file into the Go map the runtime uses, $VERIF_BIN/langlint formats a copy, and
-// lang compiles the result again.
+// table" with the real tools as the oracle: $VERIF_BIN/lang compiles message
+// files into the Go map the runtime uses, $VERIF_BIN/langlint formats copies, and
+// lang compiles the results again.
+//
+// A case is a small batch of message files. Each file of a batch is one
+// pseudo-language (messages_l00.txt -> language "l00": tools/lang takes the
+// language code from the file name), so that one lang invocation and one
+// langlint invocation serve the whole batch; every file is judged on its own.
 //
 // Preconditions taken from the statement and from real callers
 // (internal/i18n/languages/*.txt, tools/lang/compile.go):
 //   - A "message file" is a file the localization compiler accepts. A generated
 //     file that tools/lang rejects (it panics on a line without '=' and on a
-//     '[' line that does not end in ']') has no table; such a case is skipped
+//     '[' line that does not end in ']') has no table; such a file is skipped
 //     and the generator keeps it rare.
 //   - The table is the compiler's: key = section prefix + "." + the key with
 //     surrounding white space removed (compile.go trims the key so that the '='
@@ -31,6 +36,7 @@ package c35
 
 import (
 	"bytes"
+	"encoding/json"
 	"errors"
 	"fmt"
 	"go/ast"
@@ -42,6 +48,7 @@ import (
 	"sort"
 	"strconv"
 	"strings"
+	"sync"
 	"sync/atomic"
 	"testing"
 	"unicode/utf8"
@@ -50,21 +57,29 @@ import (
 	"pgregory.net/rapid"
 )
 
-// Case is one message file.
+// Case is a batch of message files (contents).
 type Case struct {
-	Content string `json:"content"`
+	Files []string `json:"files"`
 }
-
-const (
-	fileName = "messages_xx.txt" // tools/lang derives the language code "xx" from the name
-	langCode = "xx"
-)
 
 var (
 	binDir  string
 	scratch string
 	caseSeq atomic.Int64
+
+	// sigs listed as known findings (VERIF_KNOWN / known_findings.json): when
+	// several files of a batch fail, a failure that is not known is reported
+	// in preference to a known one, so a known defect cannot mask a new one.
+	knownSigs = map[string]bool{}
+
+	statMu sync.Mutex
+	stats  = map[string]int{}
 )
+
+func stat(k string, n int) { statMu.Lock(); stats[k] += n; statMu.Unlock() }
+
+func fileName(i int) string { return fmt.Sprintf("messages_l%02d.txt", i) }
+func langCode(i int) string { return fmt.Sprintf("l%02d", i) }
 
 // ---------------------------------------------------------------- generator
 
@@ -80,24 +95,26 @@ func genBaseKey(t *rapid.T) string {
 }
 
 // decorate adds the white space around a key that the compiler ignores.
-func decorate(t *rapid.T, key string) string {
-	r := rapid.IntRange(0, 99).Draw(t, "key_space")
-	switch {
-	case r < 58:
+// spaced is the per-file probability (percent) that a key is decorated.
+func decorate(t *rapid.T, key string, spaced int) string {
+	if rapid.IntRange(0, 99).Draw(t, "key_spaced") < 100-spaced {
 		return key
-	case r < 78:
+	}
+	r := rapid.IntRange(0, 41).Draw(t, "key_space")
+	switch {
+	case r < 20:
 		return key + strings.Repeat(" ", rapid.IntRange(1, 3).Draw(t, "pad"))
-	case r < 86:
+	case r < 28:
 		return strings.Repeat(" ", rapid.IntRange(1, 2).Draw(t, "pad")) + key
-	case r < 90:
+	case r < 32:
 		return " " + key + " "
-	case r < 93:
+	case r < 35:
 		return key + "\t"
-	case r < 95:
+	case r < 37:
 		return key + "\u00a0" // NBSP
-	case r < 97:
+	case r < 39:
 		return key + "\u3000" // ideographic space
-	case r < 98:
+	case r < 40:
 		return "\t" + key
 	default:
 		return key + " \t "
@@ -118,58 +135,65 @@ func genValue(t *rapid.T) string {
 
 var sectionNames = []string{"s", "t", "s.t", "", "a b", "msg", "é", "s]", " s "}
 
-func genLine(t *rapid.T, pool []string) string {
+func genLine(t *rapid.T, pool []string, spaced, odd int) string {
 	r := rapid.IntRange(0, 99).Draw(t, "line_kind")
 	switch {
-	case r < 58: // entry from the file's small key pool (duplicates are frequent)
-		return decorate(t, rapid.SampledFrom(pool).Draw(t, "key")) + "=" + genValue(t)
-	case r < 68: // blank
+	case r < 60-odd: // entry from the file's key pool
+		return decorate(t, rapid.SampledFrom(pool).Draw(t, "key"), spaced) + "=" + genValue(t)
+	case r < 70-odd: // blank
 		return rapid.SampledFrom([]string{"", "", " ", "\t", "  \t"}).Draw(t, "blank")
-	case r < 79: // comment
+	case r < 82-odd: // comment
 		return rapid.SampledFrom([]string{"# comment", "#", "#k=v", "## x ##", "#[s]", "# a=1  ", "#\t"}).Draw(t, "comment")
-	case r < 94: // section header
+	case r < 100-odd: // section header
 		h := "[" + rapid.SampledFrom(sectionNames).Draw(t, "section") + "]"
-		switch d := rapid.IntRange(0, 49).Draw(t, "header_space"); {
-		case d == 0:
+		switch d := rapid.IntRange(0, 199).Draw(t, "header_space"); {
+		// (rapid favours the low end of a range: rare variants sit at the high end)
+		case d == 199:
 			return h + " " // langlint rejects, compiler accepts
-		case d == 1:
+		case d == 198:
 			return " " + h // langlint rejects (no '='), compiler accepts
-		case d == 2:
+		case d == 197:
 			return "\t" + h + "\t"
 		}
 		return h
 	default: // odd lines
 		return rapid.SampledFrom([]string{
-			"=v",        // empty key: langlint error, compiler accepts
-			" =v",       // blank key
-			"k==v",      // value starts with '='
-			"k=[s]",     // value looks like a header
-			"k=#c",      // value looks like a comment
-			" #k=v",     // not a comment for either tool
-			" k = v ",   // spaces everywhere
+			"=v",      // empty key: langlint error, compiler accepts
+			" =v",     // blank key
+			"k==v",    // value starts with '='
+			"k=[s]",   // value looks like a header
+			"k=#c",    // value looks like a comment
+			" #k=v",   // not a comment for either tool
+			" k = v ", // spaces everywhere
+			"k=v]",
+			"a.b.c=1",
+			"k=\"q\"",
 			"novalue",   // rejected by both
 			"[s",        // rejected by both
 			" # indent", // rejected by both (no '=')
-			"k=v]",
-			"a.b.c=1",
 		}).Draw(t, "odd")
 	}
 }
 
-func genFile(t *rapid.T) Case {
+func genFile(t *rapid.T) string {
 	eol := rapid.SampledFrom([]string{"lf", "lf", "lf", "crlf", "crlf", "mixed"}).Draw(t, "eol")
 	finalNL := rapid.IntRange(0, 3).Draw(t, "final_newline") != 0
-	npool := rapid.IntRange(1, 5).Draw(t, "pool")
+	// per-file style: how often keys carry white space, how often odd lines appear
+	spaced := rapid.SampledFrom([]int{0, 0, 0, 5, 10, 25, 60}).Draw(t, "spaced_pct")
+	odd := rapid.SampledFrom([]int{0, 0, 0, 2, 5}).Draw(t, "odd_pct")
+	npool := rapid.IntRange(1, 12).Draw(t, "pool")
 	pool := make([]string, npool)
 	for i := range pool {
 		pool[i] = genBaseKey(t)
 	}
-	n := rapid.IntRange(0, 24).Draw(t, "lines")
+	n := 25 - rapid.IntRange(1, 24).Draw(t, "lines") // favours long files
+	if rapid.IntRange(0, 39).Draw(t, "empty_file") == 39 {
+		n = 0
+	}
 	var sb strings.Builder
 	for i := 0; i < n; i++ {
-		sb.WriteString(genLine(t, pool))
-		last := i == n-1
-		if last && !finalNL {
+		sb.WriteString(genLine(t, pool, spaced, odd))
+		if i == n-1 && !finalNL {
 			break
 		}
 		switch eol {
@@ -181,7 +205,16 @@ func genFile(t *rapid.T) Case {
 			sb.WriteString(rapid.SampledFrom([]string{"\n", "\r\n", "\n", "\r\r\n"}).Draw(t, "eol_line"))
 		}
 	}
-	return Case{Content: sb.String()}
+	return sb.String()
+}
+
+func genCase(t *rapid.T) Case {
+	n := rapid.IntRange(1, 12).Draw(t, "files")
+	c := Case{Files: make([]string, n)}
+	for i := range c.Files {
+		c.Files[i] = genFile(t)
+	}
+	return c
 }
 
 // ------------------------------------------------- model of compile.go's parse
@@ -213,9 +246,10 @@ func fullKey(prefix, key string) string {
 }
 
 // modelCompile mirrors tools/lang/compile.go compileFile line by line. It is
-// used to classify cases and to know every definition of a key (the compiler's
-// output only shows the winner); the oracle checks on every case that its
-// table and its duplicate set equal what the real compiler produced.
+// used to classify files, to keep files the compiler rejects out of a batch,
+// and to know every definition of a key (the compiler's output only shows the
+// winner); the oracle checks for every file that its table and its duplicate
+// set equal what the real compiler produced.
 func modelCompile(b []byte) model {
 	m := model{defs: map[string][]def{}, table: map[string]string{}}
 	prefix := ""
@@ -289,74 +323,203 @@ func spellingsDiffer(ds []def) bool {
 
 // ------------------------------------------------------------ the real tools
 
+// compiled is what tools/lang said about one file (one pseudo-language).
 type compiled struct {
-	ok     bool
+	ok     bool // the invocation that contained this file succeeded
 	table  map[string]string
-	dups   []string // keys the compiler reported as "Duplicate message"
+	dups   []string // keys reported as "Duplicate message"
 	output string
+	// hasMessage: the generated map has an entry for this language; reported:
+	// lang printed a missing-keys block for it.
+	hasMessage, reported bool
 }
 
-// compileReal runs tools/lang on a directory that holds only this file and
-// parses the generated Go source. With a single language and no "en" file the
-// writer prints every key and omits only empty messages (equal to the missing
-// English text), so key -> message ("" when omitted) is exact.
-func compileReal(dir, sub string, content []byte) (compiled, error) {
-	var c compiled
+// compileSet runs tools/lang once on a fresh directory dir/sub that holds
+// files[i] as messages_l<i>.txt and reads the generated Go source. ok=false
+// means lang exited non-zero (it panics on a malformed line).
+//
+// Reading the per-language table exactly: the writer prints every key of the
+// union and omits a language's message when it equals the English one; there is
+// no "en" file, so exactly the empty messages are omitted. The "Info: N key(s)
+// missing from '<lang>' localization" report that lang prints lists the keys a
+// language does not define at all, which separates "defined as empty" from
+// "not defined".
+func compileSet(dir, sub string, files map[int][]byte) (ok bool, res map[int]*compiled, output string, err error) {
 	d := filepath.Join(dir, sub)
+	_ = os.RemoveAll(d)
+	_ = os.Remove(filepath.Join(dir, sub+".go"))
 	if err := os.MkdirAll(d, 0o755); err != nil {
-		return c, err
+		return false, nil, "", err
 	}
-	if err := os.WriteFile(filepath.Join(d, fileName), content, 0o644); err != nil {
-		return c, err
+	byLang := map[string]int{}
+	for i, b := range files {
+		if err := os.WriteFile(filepath.Join(d, fileName(i)), b, 0o644); err != nil {
+			return false, nil, "", err
+		}
+		byLang[langCode(i)] = i
 	}
+	stat("lang_invocations", 1)
 	cmd := exec.Command(filepath.Join(binDir, "lang"), "-c", "-p", sub, "-s", sub+".go")
 	cmd.Dir = dir
 	out, err := cmd.CombinedOutput()
-	c.output = string(out)
+	output = string(out)
 	if err != nil {
 		var ee *exec.ExitError
 		if errors.As(err, &ee) {
-			return c, nil // compiler rejected the file (it panics)
+			return false, nil, output, nil
 		}
-		return c, err
+		return false, nil, output, err
 	}
 	src, err := os.ReadFile(filepath.Join(dir, sub+".go"))
 	if err != nil {
-		return c, fmt.Errorf("lang exited 0 without writing its output: %v; output: %s", err, out)
+		return false, nil, output, fmt.Errorf("lang exited 0 without writing its output: %v; output: %s", err, clip(output))
 	}
-	tab, err := parseTable(src)
+	union, err := parseTable(src)
 	if err != nil {
-		return c, err
+		return false, nil, output, err
 	}
-	c.ok, c.table = true, tab
-	head := sub + "/" + fileName + ":"
-	tail := "' in language '" + langCode + "'"
+	res = map[int]*compiled{}
+	for i := range files {
+		res[i] = &compiled{ok: true, table: map[string]string{}, output: output}
+	}
+	// duplicates and missing keys from lang's report
+	missing := map[int]map[string]bool{}
+	seenDup := map[int]map[string]bool{}
+	for i := range files {
+		missing[i] = map[string]bool{}
+		seenDup[i] = map[string]bool{}
+	}
+	lines := strings.Split(output, "\n")
 	const mid = ": Duplicate message for key '"
-	seen := map[string]bool{}
-	for _, line := range strings.Split(c.output, "\n") {
-		if !strings.HasPrefix(line, head) || !strings.HasSuffix(line, tail) {
+	for n := 0; n < len(lines); n++ {
+		line := lines[n]
+		if strings.HasPrefix(line, "Info: ") && strings.HasSuffix(line, "' localization:") {
+			var cnt int
+			rest := strings.TrimPrefix(line, "Info: ")
+			j := strings.Index(rest, " ")
+			if j <= 0 {
+				return false, nil, output, fmt.Errorf("cannot read %q", line)
+			}
+			cnt, err = strconv.Atoi(rest[:j])
+			if err != nil || !strings.HasPrefix(rest[j:], " key(s) missing from '") {
+				return false, nil, output, fmt.Errorf("cannot read %q", line)
+			}
+			lang := strings.TrimSuffix(strings.TrimPrefix(rest[j:], " key(s) missing from '"), "' localization:")
+			idx, known := byLang[lang]
+			if !known || n+cnt >= len(lines) {
+				return false, nil, output, fmt.Errorf("cannot read %q", line)
+			}
+			res[idx].reported = true
+			for k := 1; k <= cnt; k++ {
+				kl := lines[n+k]
+				if !strings.HasPrefix(kl, "  ") {
+					return false, nil, output, fmt.Errorf("missing-key line %q after %q", kl, line)
+				}
+				missing[idx][kl[2:]] = true
+			}
+			n += cnt
 			continue
 		}
-		rest := line[len(head):]
-		j := 0
-		for j < len(rest) && rest[j] >= '0' && rest[j] <= '9' {
-			j++
-		}
-		if j == 0 || !strings.HasPrefix(rest[j:], mid) {
-			continue
-		}
-		key := rest[j+len(mid) : len(rest)-len(tail)]
-		if !seen[key] {
-			seen[key] = true
-			c.dups = append(c.dups, key)
+		// <sub>/messages_lNN.txt:<n>: Duplicate message for key '<key>' in language 'lNN'
+		for i := range files {
+			head := sub + "/" + fileName(i) + ":"
+			tail := "' in language '" + langCode(i) + "'"
+			if !strings.HasPrefix(line, head) || !strings.HasSuffix(line, tail) {
+				continue
+			}
+			rest := line[len(head):]
+			j := 0
+			for j < len(rest) && rest[j] >= '0' && rest[j] <= '9' {
+				j++
+			}
+			if j == 0 || !strings.HasPrefix(rest[j:], mid) || len(rest)-len(tail) < j+len(mid) {
+				continue
+			}
+			key := rest[j+len(mid) : len(rest)-len(tail)]
+			if !seenDup[i][key] {
+				seenDup[i][key] = true
+				res[i].dups = append(res[i].dups, key)
+			}
 		}
 	}
-	sort.Strings(c.dups)
-	return c, nil
+	for key, inner := range union {
+		for lang := range inner {
+			idx, known := byLang[lang]
+			if !known {
+				return false, nil, output, fmt.Errorf("unexpected language %q in generated map", lang)
+			}
+			res[idx].hasMessage = true
+		}
+		for i := range files {
+			if msg, has := inner[langCode(i)]; has {
+				res[i].table[key] = msg
+			} else if !missing[i][key] {
+				res[i].table[key] = ""
+			}
+		}
+	}
+	for i := range files {
+		sort.Strings(res[i].dups)
+	}
+	return true, res, output, nil
+}
+
+// compileEach compiles the files in one invocation; when that fails (one of
+// them is rejected), each file is compiled on its own so that the rejection is
+// attributed to the right file.
+func compileEach(dir, sub string, files map[int][]byte) (map[int]*compiled, error) {
+	if len(files) == 0 {
+		return map[int]*compiled{}, nil
+	}
+	ok, res, output, err := compileSet(dir, sub, files)
+	if err != nil {
+		return nil, err
+	}
+	if ok {
+		// A language with no entry in the map and no missing-keys block either
+		// defines every key of the union with an empty message or defines no key
+		// at all (lang only reports languages that have a key). Compiled alone,
+		// the printed key set is exactly the file's.
+		if len(files) > 1 {
+			for i, c := range res {
+				if !c.hasMessage && !c.reported {
+					ok1, one, out1, err := compileSet(dir, sub+"-one", map[int][]byte{i: files[i]})
+					if err != nil {
+						return nil, err
+					}
+					if !ok1 {
+						return nil, fmt.Errorf("lang accepts %s in a batch and rejects it alone: %s", fileName(i), clip(out1))
+					}
+					one[i].dups = c.dups
+					res[i] = one[i]
+				}
+			}
+		}
+		return res, nil
+	}
+	res = map[int]*compiled{}
+	if len(files) == 1 {
+		for i := range files {
+			res[i] = &compiled{output: output}
+		}
+		return res, nil
+	}
+	for i, b := range files {
+		ok, one, output, err := compileSet(dir, sub, map[int][]byte{i: b})
+		if err != nil {
+			return nil, err
+		}
+		if ok {
+			res[i] = one[i]
+		} else {
+			res[i] = &compiled{output: output}
+		}
+	}
+	return res, nil
 }
 
 // parseTable reads `var messages = map[string]map[string]string{...}`.
-func parseTable(src []byte) (map[string]string, error) {
+func parseTable(src []byte) (map[string]map[string]string, error) {
 	f, err := parser.ParseFile(token.NewFileSet(), "messages.go", src, 0)
 	if err != nil {
 		return nil, fmt.Errorf("generated source does not parse: %v", err)
@@ -382,7 +545,7 @@ func parseTable(src []byte) (map[string]string, error) {
 			if !ok {
 				return nil, fmt.Errorf("messages is not a composite literal")
 			}
-			tab := map[string]string{}
+			tab := map[string]map[string]string{}
 			for _, el := range lit.Elts {
 				kv, ok := el.(*ast.KeyValueExpr)
 				if !ok {
@@ -399,7 +562,7 @@ func parseTable(src []byte) (map[string]string, error) {
 				if !ok {
 					return nil, fmt.Errorf("inner value is not a composite literal")
 				}
-				tab[key] = ""
+				tab[key] = map[string]string{}
 				for _, iel := range inner.Elts {
 					ikv, ok := iel.(*ast.KeyValueExpr)
 					if !ok {
@@ -413,10 +576,7 @@ func parseTable(src []byte) (map[string]string, error) {
 					if err != nil {
 						return nil, err
 					}
-					if lang != langCode {
-						return nil, fmt.Errorf("unexpected language %q", lang)
-					}
-					tab[key] = msg
+					tab[key][lang] = msg
 				}
 			}
 			return tab, nil
@@ -425,51 +585,111 @@ func parseTable(src []byte) (map[string]string, error) {
 	return nil, fmt.Errorf("no messages variable in generated source")
 }
 
+// linted is what langlint said about one file.
 type linted struct {
 	failed    bool // an "error:" line, or the process died
-	exit      int
-	errorText string
-	dupWarned []string // keys named by "duplicate key" warnings (unquoted)
+	dupWarned []string
 	warnings  int
-	output    string
+	output    string // this file's lines
 }
 
-func runLint(dir string) (linted, error) {
-	var l linted
-	cmd := exec.Command(filepath.Join(binDir, "langlint"), fileName)
+// lintSet runs langlint once on the given files of dir (in index order). died
+// is true when the process was killed or panicked (exit status other than 0/1).
+func lintSet(dir string, idx []int) (res map[int]*linted, died bool, err error) {
+	args := make([]string, len(idx))
+	for n, i := range idx {
+		args[n] = fileName(i)
+	}
+	stat("langlint_invocations", 1)
+	cmd := exec.Command(filepath.Join(binDir, "langlint"), args...)
 	cmd.Dir = dir
 	out, err := cmd.CombinedOutput()
-	l.output = string(out)
 	if err != nil {
 		var ee *exec.ExitError
 		if !errors.As(err, &ee) {
-			return l, err
+			return nil, false, err
 		}
-		l.exit = ee.ExitCode()
-		if l.exit != 1 { // killed or Go panic
-			l.failed = true
-			l.errorText = "process died: " + err.Error()
+		if ee.ExitCode() != 1 {
+			died = true
 		}
 	}
-	for _, line := range strings.Split(l.output, "\n") {
-		switch {
-		case strings.HasPrefix(line, fileName+": error: "):
-			l.failed = true
-			l.errorText = strings.TrimPrefix(line, fileName+": error: ")
-		case strings.HasPrefix(line, fileName+": warning: "):
-			l.warnings++
-			w := strings.TrimPrefix(line, fileName+": warning: ")
-			if strings.HasPrefix(w, "duplicate key ") {
-				q := strings.TrimPrefix(w, "duplicate key ")
-				if s, err := strconv.QuotedPrefix(q); err == nil {
-					if k, err := strconv.Unquote(s); err == nil {
-						l.dupWarned = append(l.dupWarned, k)
+	res = map[int]*linted{}
+	for _, i := range idx {
+		res[i] = &linted{}
+	}
+	for _, line := range strings.Split(string(out), "\n") {
+		for _, i := range idx {
+			p := fileName(i) + ": "
+			if !strings.HasPrefix(line, p) {
+				continue
+			}
+			l := res[i]
+			l.output += line + "\n"
+			rest := line[len(p):]
+			switch {
+			case strings.HasPrefix(rest, "error: "):
+				l.failed = true
+			case strings.HasPrefix(rest, "warning: "):
+				l.warnings++
+				w := strings.TrimPrefix(rest, "warning: ")
+				if strings.HasPrefix(w, "duplicate key ") {
+					if s, err := strconv.QuotedPrefix(strings.TrimPrefix(w, "duplicate key ")); err == nil {
+						if k, err := strconv.Unquote(s); err == nil {
+							l.dupWarned = append(l.dupWarned, k)
+						}
 					}
 				}
 			}
 		}
 	}
-	return l, nil
+	if died {
+		for _, i := range idx {
+			res[i].output += "[langlint died: " + clip(string(out)) + "]"
+		}
+	}
+	return res, died, nil
+}
+
+// lintEach formats the files in one invocation; if the process dies, the
+// directory is restored from `restore` and each file is formatted on its own,
+// so that the death is attributed to the right file.
+func lintEach(dir string, idx []int, restore map[int][]byte) (map[int]*linted, error) {
+	if len(idx) == 0 {
+		return map[int]*linted{}, nil
+	}
+	res, died, err := lintSet(dir, idx)
+	if err != nil {
+		return nil, err
+	}
+	if !died {
+		return res, nil
+	}
+	if len(idx) == 1 {
+		res[idx[0]].failed = true
+		return res, nil
+	}
+	// clean the directory (a dead run may have left temp files), restore, redo
+	ents, _ := os.ReadDir(dir)
+	for _, e := range ents {
+		_ = os.Remove(filepath.Join(dir, e.Name()))
+	}
+	for _, i := range idx {
+		if err := os.WriteFile(filepath.Join(dir, fileName(i)), restore[i], 0o644); err != nil {
+			return nil, err
+		}
+	}
+	res = map[int]*linted{}
+	for _, i := range idx {
+		one, died, err := lintSet(dir, []int{i})
+		if err != nil {
+			return nil, err
+		}
+		res[i] = one[i]
+		if died {
+			res[i].failed = true
+		}
+	}
+	return res, nil
 }
 
 // warnedFor: does some duplicate warning name a spelling of this key?
@@ -506,12 +726,7 @@ func tablesEqual(a, b map[string]string) (bool, string) {
 	for _, k := range ks {
 		va, oka := a[k]
 		vb, okb := b[k]
-		switch {
-		case !oka:
-			return false, k
-		case !okb:
-			return false, k
-		case va != vb:
+		if !oka || !okb || va != vb {
 			return false, k
 		}
 	}
@@ -526,54 +741,26 @@ func show(m map[string]string, k string) string {
 	return strconv.Quote(v)
 }
 
+func clip(s string) string {
+	if len(s) > 600 {
+		return s[:600] + "…"
+	}
+	return s
+}
+
 // --------------------------------------------------------------------- oracle
 
-func oracle(c Case) vkit.Outcome {
-	var out vkit.Outcome
-	if !utf8.ValidString(c.Content) {
-		out.Skip = "not valid UTF-8"
-		return out
-	}
-	dir := filepath.Join(scratch, fmt.Sprintf("case-%d", caseSeq.Add(1)))
-	if err := os.MkdirAll(dir, 0o755); err != nil {
-		out.Inconclusive = "scratch directory: " + err.Error()
-		return out
-	}
-	defer os.RemoveAll(dir)
+// verdict is the judgement of one file of a batch.
+type verdict struct {
+	skip, inconclusive string
+	fail               *vkit.Failure
+	nontrivial         bool
+	labels             []string
+}
 
-	orig := []byte(c.Content)
-	m := modelCompile(orig)
+func (v *verdict) lab(s string) { v.labels = append(v.labels, s) }
 
-	// 1. the compiler's table of the original
-	c0, err := compileReal(dir, "o", orig)
-	if err != nil {
-		out.Inconclusive = "cannot run lang"
-		out.Labels = []string{"harness: " + vkit_clip(err.Error())}
-		return out
-	}
-	if !c0.ok {
-		if !m.rejected && strings.Contains(c0.output, "Malformed") {
-			out.Inconclusive = "model accepts a file the compiler rejects"
-			return out
-		}
-		out.Skip = "original rejected by the compiler"
-		return out
-	}
-	if m.rejected {
-		out.Inconclusive = "model rejects a file the compiler accepts"
-		return out
-	}
-	if eq, k := tablesEqual(m.table, c0.table); !eq {
-		out.Inconclusive = "model table differs from the compiler's"
-		out.Labels = []string{"harness: model mismatch at key " + strconv.Quote(k)}
-		return out
-	}
-	if strings.Join(m.dupKeys(), "\x00") != strings.Join(c0.dups, "\x00") {
-		out.Inconclusive = "model duplicate set differs from the compiler's"
-		return out
-	}
-
-	// classification
+func classify(v *verdict, content string, m model, c0 *compiled) {
 	hasDup := len(c0.dups) > 0
 	dupDistinct, dupSpelling := false, false
 	for _, k := range c0.dups {
@@ -584,121 +771,216 @@ func oracle(c Case) vkit.Outcome {
 			}
 		}
 	}
-	valueEq := false
+	valueEq, valueEmpty := false, false
 	for _, ds := range m.defs {
 		for _, d := range ds {
 			if strings.Contains(d.Value, "=") {
 				valueEq = true
 			}
+			if d.Value == "" {
+				valueEmpty = true
+			}
 		}
 	}
-	out.NonTrivial = hasDup || valueEq
-	lab := func(s string) { out.Labels = append(out.Labels, s) }
+	v.nontrivial = hasDup || valueEq
 	if hasDup {
-		lab("dup")
+		v.lab("dup")
 	}
 	if dupDistinct {
-		lab("dup values differ")
+		v.lab("dup values differ")
 	}
 	if dupSpelling {
-		lab("dup values differ, spellings differ in white space")
+		v.lab("dup values differ, spellings differ in white space")
 	}
 	if valueEq {
-		lab("value contains '='")
+		v.lab("value contains '='")
 	}
-	if strings.Contains(c.Content, "\r\n") {
-		lab("crlf")
+	if valueEmpty {
+		v.lab("empty value")
 	}
-	if len(c.Content) > 0 && !strings.HasSuffix(c.Content, "\n") {
-		lab("no final newline")
+	if strings.Contains(content, "\r\n") {
+		v.lab("crlf")
+	}
+	if len(content) > 0 && !strings.HasSuffix(content, "\n") {
+		v.lab("no final newline")
 	}
 	if m.headers > 0 {
-		lab("has sections")
+		v.lab("has sections")
 	}
 	if m.comments > 0 {
-		lab("has comments")
+		v.lab("has comments")
 	}
-	if strings.ContainsAny(c.Content, "{}") {
-		lab("braces")
+	if strings.ContainsAny(content, "{}") {
+		v.lab("braces")
 	}
-	for _, r := range c.Content {
+	for _, r := range content {
 		if r >= 0x80 {
-			lab("non-ASCII")
+			v.lab("non-ASCII")
+			break
+		}
+	}
+	for _, ds := range m.defs {
+		sp := false
+		for _, d := range ds {
+			if d.RawKey != d.Key {
+				sp = true
+			}
+		}
+		if sp {
+			v.lab("key with surrounding white space")
 			break
 		}
 	}
 	switch n := len(m.table); {
 	case n == 0:
-		lab("keys=0")
+		v.lab("keys=0")
 	case n <= 3:
-		lab("keys=1-3")
+		v.lab("keys=1-3")
 	case n <= 20:
-		lab("keys=4-20")
+		v.lab("keys=4-20")
 	default:
-		lab("keys>20")
+		v.lab("keys>20")
 	}
+}
 
-	// 2. format a copy
-	fdir := filepath.Join(dir, "f")
-	fpath := filepath.Join(fdir, fileName)
-	err = os.MkdirAll(fdir, 0o755)
-	if err == nil {
-		err = os.WriteFile(fpath, orig, 0o644)
+// judge runs the real tools over the batch and judges every file.
+func judge(files []string) ([]verdict, error) {
+	vs := make([]verdict, len(files))
+	dir := filepath.Join(scratch, fmt.Sprintf("case-%d", caseSeq.Add(1)))
+	if err := os.MkdirAll(dir, 0o755); err != nil {
+		return nil, err
 	}
-	if err != nil {
-		out.Inconclusive = "scratch write: " + err.Error()
-		return out
-	}
-	l1, err := runLint(fdir)
-	if err != nil {
-		out.Inconclusive = "cannot run langlint"
-		return out
-	}
-	after, rerr := os.ReadFile(fpath)
+	defer os.RemoveAll(dir)
 
-	if l1.failed {
-		lab("langlint failed")
-		if rerr != nil || !bytes.Equal(after, orig) {
-			obs := "file missing: " + fmt.Sprint(rerr)
-			if rerr == nil {
-				obs = "file now " + strconv.Quote(clip(string(after)))
-			}
-			out.Fail = &vkit.Failure{Sig: "langlint failed but the file changed",
-				Observed: "langlint: " + clip(l1.output) + "; " + obs, Expected: "byte-identical file after a failed run"}
+	models := make([]model, len(files))
+	accepted := map[int][]byte{}
+	for i, f := range files {
+		if !utf8.ValidString(f) {
+			vs[i].skip = "not valid UTF-8"
+			continue
 		}
-		return out
+		models[i] = modelCompile([]byte(f))
+		if models[i].rejected {
+			// confirm with the real compiler, alone
+			ok, _, _, err := compileSet(dir, "r", map[int][]byte{i: []byte(f)})
+			if err != nil {
+				return nil, err
+			}
+			if ok {
+				vs[i].inconclusive = "model rejects a file the compiler accepts"
+			} else {
+				vs[i].skip = "original rejected by the compiler"
+			}
+			continue
+		}
+		accepted[i] = []byte(f)
 	}
-	if rerr != nil {
-		out.Fail = &vkit.Failure{Sig: "langlint succeeded but the file is gone", Observed: rerr.Error(), Expected: "formatted file at the path"}
-		return out
+
+	// 1. the compiler's tables of the originals
+	c0, err := compileEach(dir, "o", accepted)
+	if err != nil {
+		return nil, err
 	}
-	changed := !bytes.Equal(after, orig)
-	if changed {
-		lab("reformatted")
-	} else {
-		lab("unchanged")
+	var idx []int
+	for i := range accepted {
+		m := models[i]
+		switch {
+		case !c0[i].ok:
+			vs[i].inconclusive = "model accepts a file the compiler rejects"
+		default:
+			if eq, k := tablesEqual(m.table, c0[i].table); !eq {
+				vs[i].inconclusive = "model table differs from the compiler's"
+				vs[i].lab("harness: model mismatch at key " + strconv.Quote(k))
+			} else if strings.Join(m.dupKeys(), "\x00") != strings.Join(c0[i].dups, "\x00") {
+				vs[i].inconclusive = "model duplicate set differs from the compiler's"
+			}
+		}
+		if vs[i].inconclusive != "" {
+			continue
+		}
+		classify(&vs[i], files[i], m, c0[i])
+		idx = append(idx, i)
 	}
-	if l1.warnings > 0 {
-		lab("langlint warned")
+	sort.Ints(idx)
+
+	// 2. format copies
+	fdir := filepath.Join(dir, "f")
+	if err := os.MkdirAll(fdir, 0o755); err != nil {
+		return nil, err
+	}
+	for _, i := range idx {
+		if err := os.WriteFile(filepath.Join(fdir, fileName(i)), accepted[i], 0o644); err != nil {
+			return nil, err
+		}
+	}
+	l1, err := lintEach(fdir, idx, accepted)
+	if err != nil {
+		return nil, err
+	}
+	after := map[int][]byte{}
+	changed := map[int][]byte{}
+	var live []int // files that langlint formatted successfully
+	for _, i := range idx {
+		v := &vs[i]
+		b, rerr := os.ReadFile(filepath.Join(fdir, fileName(i)))
+		if l1[i].failed {
+			v.lab("langlint failed")
+			if rerr != nil || !bytes.Equal(b, accepted[i]) {
+				obs := "file missing: " + fmt.Sprint(rerr)
+				if rerr == nil {
+					obs = "file now " + strconv.Quote(clip(string(b)))
+				}
+				v.fail = &vkit.Failure{Sig: "langlint failed but the file changed",
+					Observed: "langlint: " + clip(l1[i].output) + "; " + obs, Expected: "byte-identical file after a failed run"}
+			}
+			continue
+		}
+		if rerr != nil {
+			v.fail = &vkit.Failure{Sig: "langlint succeeded but the file is gone", Observed: rerr.Error(), Expected: "formatted file at the path"}
+			continue
+		}
+		after[i] = b
+		live = append(live, i)
+		if !bytes.Equal(b, accepted[i]) {
+			changed[i] = b
+			v.lab("reformatted")
+		} else {
+			v.lab("unchanged")
+		}
+		if l1[i].warnings > 0 {
+			v.lab("langlint warned")
+		}
 	}
 
 	// 3. same table
-	if changed {
-		c1, err := compileReal(dir, "n", after)
-		if err != nil {
-			out.Inconclusive = "cannot run lang"
-			return out
-		}
-		if !c1.ok {
-			out.Fail = &vkit.Failure{Sig: "formatted file rejected by the compiler",
-				Observed: "lang on the formatted file: " + clip(c1.output) + "\nformatted: " + strconv.Quote(clip(string(after))),
+	c1, err := compileEach(dir, "n", changed)
+	if err != nil {
+		return nil, err
+	}
+	for i := range changed {
+		v, m := &vs[i], models[i]
+		if !c1[i].ok {
+			v.fail = &vkit.Failure{Sig: "formatted file rejected by the compiler",
+				Observed: "lang on the formatted file: " + clip(c1[i].output) + "\nformatted: " + strconv.Quote(clip(string(changed[i]))),
 				Expected: "the table of the original"}
-			return out
+			continue
 		}
-		if eq, k := tablesEqual(c0.table, c1.table); !eq {
+		if eq, k := tablesEqual(c0[i].table, c1[i].table); !eq {
 			cause := "other"
 			ds := m.defs[k]
+			// "flipped": the key now has the message of another of its definitions
+			flipped := false
+			if now, has := c1[i].table[k]; has {
+				for _, d := range ds {
+					if d.Value == now {
+						flipped = true
+					}
+				}
+			}
 			switch {
+			case !flipped && m.indentedHeader:
+				cause = "indented section header"
+			case !flipped:
 			case len(ds) > 1 && spellingsDiffer(ds):
 				cause = "winner of a duplicate flipped, spellings differ only in surrounding white space"
 			case len(ds) > 1:
@@ -707,38 +989,43 @@ func oracle(c Case) vkit.Outcome {
 				cause = "indented section header"
 			}
 			warned := "no duplicate warning for it"
-			if warnedFor(l1.dupWarned, ds) {
+			if warnedFor(l1[i].dupWarned, ds) {
 				warned = "duplicate warning printed"
 			}
-			out.Fail = &vkit.Failure{Sig: "table changed: " + cause,
-				Observed: fmt.Sprintf("key %q: %s before, %s after formatting (%s); formatted file: %q; langlint said: %q",
-					k, show(c0.table, k), show(c1.table, k), warned, clip(string(after)), clip(l1.output)),
+			v.fail = &vkit.Failure{Sig: "table changed: " + cause,
+				Observed: fmt.Sprintf("original %q; key %q: %s before, %s after formatting (%s); formatted file: %q; langlint said: %q",
+					clip(files[i]), k, show(c0[i].table, k), show(c1[i].table, k), warned, clip(string(changed[i])), clip(l1[i].output)),
 				Expected: "identical key-to-message table"}
-			return out
 		}
 	}
 
 	// 4. formatting again changes nothing
-	l2, err := runLint(fdir)
+	var again []int
+	for _, i := range live {
+		if vs[i].fail == nil {
+			again = append(again, i)
+		}
+	}
+	l2, err := lintEach(fdir, again, after)
 	if err != nil {
-		out.Inconclusive = "cannot run langlint"
-		return out
+		return nil, err
 	}
-	again, rerr := os.ReadFile(fpath)
-	if rerr != nil || !bytes.Equal(again, after) || l2.failed {
-		out.Fail = &vkit.Failure{Sig: "second format is not a no-op",
-			Observed: fmt.Sprintf("after 1st: %q; after 2nd: %q (err %v); langlint said: %q", clip(string(after)), clip(string(again)), rerr, clip(l2.output)),
-			Expected: "second run leaves the file as the first run wrote it"}
-		return out
-	}
-
-	// 5. duplicates whose winner matters are reported
-	for _, k := range c0.dups {
-		ds := m.defs[k]
-		if distinctValues(ds) < 2 {
+	for _, i := range again {
+		v := &vs[i]
+		b, rerr := os.ReadFile(filepath.Join(fdir, fileName(i)))
+		if rerr != nil || !bytes.Equal(b, after[i]) || l2[i].failed {
+			v.fail = &vkit.Failure{Sig: "second format is not a no-op",
+				Observed: fmt.Sprintf("original %q; after 1st: %q; after 2nd: %q (err %v); langlint said: %q", clip(files[i]), clip(string(after[i])), clip(string(b)), rerr, clip(l2[i].output)),
+				Expected: "second run leaves the file as the first run wrote it"}
 			continue
 		}
-		if !warnedFor(l1.dupWarned, ds) {
+		// 5. duplicates whose winner matters are reported
+		m := models[i]
+		for _, k := range c0[i].dups {
+			ds := m.defs[k]
+			if distinctValues(ds) < 2 || warnedFor(l1[i].dupWarned, ds) {
+				continue
+			}
 			cause := "identical spellings"
 			if spellingsDiffer(ds) {
 				cause = "spellings differ only in surrounding white space"
@@ -747,60 +1034,133 @@ func oracle(c Case) vkit.Outcome {
 			for _, d := range ds {
 				lines = append(lines, fmt.Sprintf("line %d %q=%q", d.Line, d.RawKey, d.Value))
 			}
-			out.Fail = &vkit.Failure{Sig: "duplicate not reported: " + cause,
-				Observed: fmt.Sprintf("the compiler reports key %q as duplicate (%s); langlint printed: %q", k, strings.Join(lines, ", "), clip(l1.output)),
+			v.fail = &vkit.Failure{Sig: "duplicate not reported: " + cause,
+				Observed: fmt.Sprintf("original %q; the compiler reports key %q as duplicate (%s); langlint printed: %q", clip(files[i]), k, strings.Join(lines, ", "), clip(l1[i].output)),
 				Expected: "a langlint 'duplicate key' warning for that key"}
+			break
+		}
+	}
+	return vs, nil
+}
+
+func oracle(c Case) vkit.Outcome {
+	var out vkit.Outcome
+	if len(c.Files) == 0 {
+		out.Skip = "empty batch"
+		return out
+	}
+	vs, err := judge(c.Files)
+	if err != nil {
+		// the tools could not be run or their output could not be read: never a verdict
+		out.Inconclusive = "harness: cannot run the tools"
+		fmt.Printf("C35 harness problem (inconclusive case): %v\n", err)
+		return out
+	}
+	judged := 0
+	var fails []*vkit.Failure
+	for _, v := range vs {
+		switch {
+		case v.skip != "":
+			stat("files_skipped", 1)
+			out.Labels = append(out.Labels, "file skipped: "+v.skip)
+			continue
+		case v.inconclusive != "":
+			stat("files_inconclusive", 1)
+			out.Labels = append(out.Labels, "file inconclusive: "+v.inconclusive)
+			out.Labels = append(out.Labels, v.labels...)
+			out.Inconclusive = v.inconclusive
+			continue
+		}
+		judged++
+		stat("files_judged", 1)
+		if v.nontrivial {
+			out.NonTrivial = true
+			stat("files_nontrivial", 1)
+		}
+		out.Labels = append(out.Labels, v.labels...)
+		if v.fail != nil {
+			fails = append(fails, v.fail)
+		}
+	}
+	if judged == 0 && out.Inconclusive == "" {
+		out.Skip = "no file of the batch is accepted by the compiler"
+		return out
+	}
+	for _, f := range fails {
+		if !knownSigs[f.Sig] {
+			out.Fail = f
 			return out
 		}
 	}
+	if len(fails) > 0 {
+		out.Fail = fails[0]
+	}
 	return out
-}
-
-func clip(s string) string {
-	if len(s) > 600 {
-		return s[:600] + "…"
-	}
-	return s
-}
-
-func vkit_clip(s string) string {
-	if len(s) > 120 {
-		return s[:120]
-	}
-	return s
 }
 
 // ---------------------------------------------------------------- fixed cases
 
 func fixed() []Case {
-	cs := []Case{
-		{Content: ""},
-		{Content: "\n\n"},
-		{Content: "b=2\na=1\n"},
-		{Content: "# c\n[s]\nb=2\n\n\na=1\n# d\nz=3\nc=x=y\n"},
-		{Content: "[s]\r\nk=1\r\nk=2\r\n"},              // identical spelling, warned, stable
-		{Content: "[s]\nk =1\nk=2\n"},                   // aligned '=' as in messages_en.txt
-		{Content: "k=1\n k=2"},                          // leading space, no final newline
-		{Content: "[a]\nb.c=1\n[a.b]\nc=2\n"},           // same compiled key from two sections
-		{Content: "=v\nb=1\na=2\n"},                     // langlint error (empty key), compiler accepts
-		{Content: "[s] \nb=1\na=2\n"},                   // langlint error (header), compiler accepts
-		{Content: "k={{a}} = '{' {\n j= x \n"},          // braces, '=', spaces
-		{Content: "キー\u3000=値\nキー=他\n"},                 // ideographic space before '='
-		{Content: "[s]\nb=1\n# split\na=2\nb=3\n[t]\n"}, // comment splits the sort block
+	one := []string{
+		"",
+		"\n\n",
+		"b=2\na=1\n",
+		"# c\n[s]\nb=2\n\n\na=1\n# d\nz=3\nc=x=y\n",
+		"[s]\r\nk=1\r\nk=2\r\n",                 // identical spelling: warned, stable
+		"[s]\nk =1\nk=2\n",                      // aligned '=' as in messages_en.txt
+		"k=1\n k=2",                             // leading space, no final newline
+		"[a]\nb.c=1\n[a.b]\nc=2\n",              // same compiled key from two sections
+		"=v\nb=1\na=2\n",                        // langlint error (empty key), compiler accepts
+		"[s] \nb=1\na=2\n",                      // langlint error (header), compiler accepts
+		"k={{a}} = '{' {\n j= x \n",             // braces, '=', spaces
+		"キー\u3000=値\nキー=他\n",                    // ideographic space before '='
+		"[s]\nb=1\n# split\na=2\nb=3\n[t]\n",    // comment splits the sort block
+		"b=\na=\n",                              // empty values
+		"[s]\nk=1\n[t]\nj=2\n[s]\nk=\nk =3\n",   // section reopened
+		"x=1\r\r\ny=2\r\n\r\n[s]\r\n\r\na=\r\n", // CR runs
 	}
+	var cs []Case
+	for _, f := range one {
+		cs = append(cs, Case{Files: []string{f}})
+	}
+	cs = append(cs, Case{Files: one}) // and all of them as one batch
 	// the shipped message files (what real callers feed both tools)
 	repo := os.Getenv("VERIF_REPO")
 	if repo == "" {
 		repo = "/repo"
 	}
-	files, _ := filepath.Glob(filepath.Join(repo, "internal/i18n/languages/messages_*.txt"))
-	sort.Strings(files)
-	for _, f := range files {
-		if b, err := os.ReadFile(f); err == nil && utf8.Valid(b) {
-			cs = append(cs, Case{Content: string(b)})
+	paths, _ := filepath.Glob(filepath.Join(repo, "internal/i18n/languages/messages_*.txt"))
+	sort.Strings(paths)
+	for _, p := range paths {
+		if b, err := os.ReadFile(p); err == nil && utf8.Valid(b) {
+			cs = append(cs, Case{Files: []string{string(b)}})
 		}
 	}
 	return cs
+}
+
+func loadKnownSigs() {
+	p := os.Getenv("VERIF_KNOWN")
+	if p == "" {
+		p = filepath.Join(vkit.Root(), "known_findings.json")
+	}
+	b, err := os.ReadFile(p)
+	if err != nil {
+		return
+	}
+	var kf struct {
+		Findings []struct {
+			Property string `json:"property"`
+			Sig      string `json:"sig"`
+		} `json:"findings"`
+	}
+	if json.Unmarshal(b, &kf) == nil {
+		for _, f := range kf.Findings {
+			if f.Property == "C35" {
+				knownSigs[f.Sig] = true
+			}
+		}
+	}
 }
 
 func TestC35(t *testing.T) {
@@ -825,26 +1185,37 @@ func TestC35(t *testing.T) {
 		t.Fatal(err)
 	}
 	defer os.RemoveAll(scratch)
+	loadKnownSigs()
 
 	vkit.Run(t, vkit.Spec[Case]{
 		ID:    "C35",
 		Level: "exploration",
-		Rule: "generated message files of 0-24 lines over a pool of 1-5 keys (so duplicates are frequent): entries with white space around the key " +
-			"(spaces, tabs, NBSP, U+3000), values built from text, '=', braces, quotes, unicode; section headers, comments, blank lines, " +
-			"lines only one of the tools rejects; LF, CRLF and mixed line ends, with or without final newline; plus the shipped message files. " +
-			"Oracle: tools/lang compiles the original and the langlint-formatted copy in separate directories; the generated Go maps are parsed and compared. " +
-			"Non-trivial: the compiler reports a duplicate key or a value contains '='. Distinct by file content.",
+		Rule: "a case is a batch of 1-12 generated message files (one pseudo-language each, so one invocation of each tool serves the batch; every file is judged separately). " +
+			"A file has 0-24 lines over a pool of 1-12 keys (duplicates are frequent): entries whose key may carry surrounding white space " +
+			"(spaces, tabs, NBSP, U+3000; per-file rate 0-60%), values built from text, '=', braces, quotes, unicode, empty; section headers, comments, blank lines, " +
+			"lines only one of the tools rejects; LF, CRLF and mixed line ends, with or without final newline; plus hand-written files and the shipped message files. " +
+			"Oracle: tools/lang compiles the originals and the langlint-formatted copies; the generated Go maps are parsed and compared per language. " +
+			"Non-trivial: the batch has a file in which the compiler reports a duplicate key or a value contains '='. Distinct by batch content; per-file counts are in files_*.",
 		Assumptions: []string{
 			"a message file is one tools/lang accepts; files it rejects are skipped",
 			"the table is the compiler's: keys trimmed of surrounding white space, last definition wins",
 			"valid UTF-8 only; section names do not contain '='",
 			"a duplicate must be reported when the compiler sees more than one definition and their values differ, and langlint did not fail",
-			"a harness model of compile.go's line parser supplies the list of definitions per key; it is checked against the real compiler's table and duplicate report on every case (mismatch = inconclusive)",
+			"a harness model of compile.go's line parser supplies the list of definitions per key and keeps rejected files out of a batch; it is checked against the real compiler's table and duplicate report for every file (mismatch = inconclusive)",
 		},
-		Gen:      genFile,
+		Gen:      genCase,
 		Oracle:   oracle,
 		Fixed:    fixed,
-		Quick:    150,
-		Thorough: 2000,
+		Quick:    60,
+		Thorough: 400,
+		Extra: func() map[string]any {
+			statMu.Lock()
+			defer statMu.Unlock()
+			m := map[string]any{}
+			for k, v := range stats {
+				m[k] = v
+			}
+			return m
+		},
 	})
 }
